@@ -13,13 +13,17 @@
    WF3 (every unmerged leaf listed at a parent is a non-blank leaf below it; theorems in C02)
    and WF5: every non-blank parent has a member in each of its two subtrees - so a node of a
    committer's path whose copath resolution is empty is blank.
-   NOT proved: that parent-hash chains stay valid across adds, removes and path updates.  They
-   are VERIFIED on every sampled exported tree by an implementation of RFC 9420 7.9.2 written
-   from the RFC text in Gallina (Model/TreeHashRFC.v: parent_hash_case, with the original
-   sibling tree hash recomputed from scratch), independent of parent_hash.rs, and additionally
-   by the library's own joiner / observer validation of every exported tree.  Statements only. *)
-From Coq Require Import NArith List.
-From MlsV Require Import Res TreeMathGen TreeMathProofs Tree TreeProofs TreeWF Decap DecapProofs TreeWF5 NodeVecGen NodeVecGenProofs Kem Priv ParentHash.
+   Parent-hash chains: validity (the hash-chain equation of RFC 9420 7.9.2) is proved to be an invariant of
+   every commit, with the committer's hashes computed top-down (section "parent hashes" below); the chains of
+   every sampled exported tree are additionally VERIFIED by an implementation of 7.9.2 written from the RFC
+   text in Gallina (Model/TreeHashRFC.v: parent_hash_case), independent of parent_hash.rs, and by the
+   library's own joiner / observer validation of every exported tree.
+   The incrementally maintained hash cache: proved equal to the from-scratch tree hash at EVERY node after
+   every commit (section "hash cache" below, over the translated tree_hash.rs), and every member's whole
+   cache is compared with the from-scratch hashes of its own node vector on the generated histories.
+   Statements only. *)
+From Coq Require Import String NArith List.
+From MlsV Require Import Res TreeMathGen TreeMathProofs Tree TreeProofs TreeWF Decap DecapProofs TreeWF5 NodeVecGen NodeVecGenProofs Kem Priv ParentHash HashCache HashCacheGen HashCacheProofs HashCacheGenProofs HashCacheTree.
 Import ListNotations.
 Local Open Scope N_scope.
 
@@ -73,7 +77,8 @@ Proof. exact translated_node_vector. Qed.
    updates, adds with their unmerged-leaf bookkeeping, trim) and by the update path, PROVIDED the committer
    computes the parent hashes on its path by the top-down recurrence of 7.9 (hypothesis Dpath of the path
    theorem: that recurrence is what parent_hash.rs implements; it is compared with the library on every
-   exported tree by the from-scratch verification in Model/TreeHashRFC.v).  PARTIAL: the second condition of
+   exported tree by the from-scratch verification in Model/TreeHashRFC.v;
+   C08_parent_hashes_computed_by_the_committer_are_valid discharges it for the top-down computation [decorate]).  PARTIAL: the second condition of
    7.9.2 (the rest of the child's resolution consists of P's unmerged leaves) is not part of PHValid. *)
 Theorem C08_parent_hashes_valid_in_a_new_group : forall PHF id d, PHValid PHF [Some (Leaf id)] d.
 Proof. exact ph_initial. Qed.
@@ -100,6 +105,93 @@ Theorem C08_parent_hashes_stay_valid_through_a_commit : forall PHF t removes upd
 Proof. exact ph_commit. Qed.
 
 Print Assumptions C08_every_parent_has_members_on_both_sides.
+
+(* ---- the incrementally maintained hash cache (tree_hash.rs update_hashes / tree_hash) ----
+   Hashes are symbolic terms recording what is fed to the hash function (Model/HashCache.v); CacheOK pay t c says
+   that the cache c has one entry per node of the full tree of t and that every entry is the from-scratch hash
+   (thash, RFC 9420 7.8) of its subtree.  The translated code (Gen/HashCacheGen.v) is the model. *)
+Theorem C08_translated_hash_cache_code_is_the_model : forall pay c t ls flt nl upd,
+  gen_tree_hash pay c t ls flt nl = tree_hash pay c t ls flt nl /\
+  gen_update_hashes pay c t upd = update_hashes pay c t upd /\
+  gen_initialize_hashes pay c t = initialize_hashes pay c t.
+Proof. exact gen_hash_cache_is_model. Qed.
+Print Assumptions C08_translated_hash_cache_code_is_the_model.
+
+Theorem C08_batch_edit_lists_removed_updated_and_added_leaves_for_the_hash_update : forall removes updated added,
+  gen_batch_edit_hash_leaves removes updated added = removes ++ updated ++ added.
+Proof. exact gen_batch_edit_hash_leaves_is_model. Qed.
+Print Assumptions C08_batch_edit_lists_removed_updated_and_added_leaves_for_the_hash_update.
+
+(* every other caller of update_hashes lists the one leaf whose direct path it has just rewritten *)
+Theorem C08_callers_of_update_hashes_are_the_known_ones : gen_hash_sites =
+  [("update_parent_hashes"%string, ["[index]"%string; "[index]"%string]);
+   ("encap"%string, ["[self_index]"%string]);
+   ("process_commit"%string, ["[sender]"%string]);
+   ("commit_internal"%string, ["[provisional_private_tree.self_index]"%string]);
+   ("add_leaves"%string, ["added"%string])].
+Proof. exact gen_hash_sites_are_the_known_ones. Qed.
+Print Assumptions C08_callers_of_update_hashes_are_the_known_ones.
+
+Theorem C08_hash_cache_computed_from_scratch_is_right : forall pay t, small t ->
+  exists c, initialize_hashes pay [] t = Ok c /\ CacheOK pay t c.
+Proof. exact initialize_hashes_correct. Qed.
+Print Assumptions C08_hash_cache_computed_from_scratch_is_right.
+
+Theorem C08_hash_cache_stays_right_through_any_edit_confined_to_the_listed_leaves : forall pay pay' t t' c ls,
+  small t' -> CacheOK pay t c ->
+  (forall n, ~ touched ls n -> get t' n = get t n /\ pay' n = pay n) ->
+  exists c', update_hashes pay' c t' ls = Ok c' /\ CacheOK pay' t' c'.
+Proof. exact cache_right_after_a_confined_edit. Qed.
+Print Assumptions C08_hash_cache_stays_right_through_any_edit_confined_to_the_listed_leaves.
+
+Theorem C08_hash_cache_stays_right_through_the_proposals : forall pay pay' t removes updates adds t' added c,
+  wf3 t -> tlen t + 2 * N.of_nat (length adds) < 2 ^ 25 ->
+  batch_edit t removes updates adds = TOk (t', added) ->
+  (forall n, ~ touched (removes ++ map fst updates ++ added) n -> pay' n = pay n) ->
+  CacheOK pay t c ->
+  exists c', update_hashes pay' c t' (removes ++ map fst updates ++ added) = Ok c' /\ CacheOK pay' t' c'.
+Proof. exact cache_right_after_the_proposals. Qed.
+Print Assumptions C08_hash_cache_stays_right_through_the_proposals.
+
+Theorem C08_hash_cache_stays_right_through_the_update_path : forall pay pay' t sndr id t2 c,
+  small t -> small t2 -> apply_update_path t sndr id = TOk t2 ->
+  (forall n, ~ touched [sndr] n -> pay' n = pay n) ->
+  CacheOK pay t c ->
+  exists c', update_hashes pay' c t2 [sndr] = Ok c' /\ CacheOK pay' t2 c'.
+Proof. exact cache_right_after_the_update_path. Qed.
+Print Assumptions C08_hash_cache_stays_right_through_the_update_path.
+
+Theorem C08_cached_root_entry_is_the_tree_hash : forall pay t c D, (D <= 30)%nat -> total_leaf_count t = 2 ^ N.of_nat D ->
+  Valid pay t [] D c -> bind (root (total_leaf_count t)) (fun r => hidx c r) = Ok (thash pay t [] D 0).
+Proof. exact cached_root_hash_is_the_tree_hash. Qed.
+Print Assumptions C08_cached_root_entry_is_the_tree_hash.
+
+(* the committer's parent hashes computed top-down (decorate, the recurrence of RFC 9420 7.9) are valid: the
+   hypothesis of C08_parent_hashes_stay_valid_through_a_commit about the new decoration is discharged *)
+Theorem C08_parent_hashes_computed_by_the_committer_are_valid : forall PHF t removes updates adds t1 added sndr id t2 flt d dm fk leafkey,
+  wf3 t -> wf5 t -> shape_ok t -> tlen t + 2 * N.of_nat (length adds) < 2 ^ 25 ->
+  batch_edit t removes updates adds = TOk (t1, added) ->
+  apply_update_path t1 sndr id = TOk t2 ->
+  filtered (set t1 (2 * sndr) (Some (Leaf id))) sndr = Ok flt ->
+  (forall n, (forall l, In l (map fst updates) -> n <> 2 * l) -> get t n <> None -> dm n = d n) ->
+  PHValid PHF t d -> PHValid PHF t2 (decorate PHF t2 dm sndr flt fk leafkey).
+Proof. exact ph_commit_computed. Qed.
+Print Assumptions C08_parent_hashes_computed_by_the_committer_are_valid.
+
+(* non-vacuity: a cache built from scratch for a three-member tree with an unmerged leaf, then kept right by
+   update_hashes through a remove that shrinks nothing and an add that regrows *)
+Example C08_cache_ex :
+  let pay := fun n => 100 + n in
+  let t := [Some (Leaf 10); Some (Par [1]); Some (Leaf 11); None; Some (Leaf 12)] in
+  match initialize_hashes pay [] t with
+  | Ok c => match batch_edit t [1] [] [4] with
+            | TOk (t', added) => match update_hashes pay c t' ([1] ++ [] ++ added) with
+                                 | Ok c' => hidx c' 3 = Ok (thash pay t' [] 2 0)
+                                 | _ => False end
+            | _ => False end
+  | _ => False end.
+Proof. vm_compute. reflexivity. Qed.
+
 
 Theorem C08_initial_tree_wf5 : forall id, wf5 [Some (Leaf id)].
 Proof. exact wf5_single. Qed.
